@@ -7,7 +7,7 @@ SPEC_DIR = "scheduler"
 TRACE_SPEC = ("Trace_Scheduler.tla", "Trace_Scheduler.cfg")
 META = {
     "level": "model_checking",
-    "text": 'Design level: Scheduler.tla: STWOnlyWhenStopped (packets of stop-the-world stages run only between stop_all_mutators and resume_mutators), WorldStoppedOnlyInGC, BlockedUntilEnd, AllClosedAtGCEnd; the mutant that opens the first STW stage before the mutators stopped must be rejected. Conformance: in every real pause of every plan: one StopEnter/StopExit before any root scan, STW packet or object scan; every bound mutator scanned exactly once per root-scan phase (mark-compact plans: a second phase in SecondRoots; ConcurrentImmix: none in FinalMark); exactly one resume_mutators, issued by the last parked worker with all STW buckets empty, no pending packet and no STW packet until the next stop; a blocked requester is released only after a resume that follows its block, and the request flag is clear when the mutators are resumed (a request made right after the pause is not elided).',
+    "text": 'Design level: Scheduler.tla: STWOnlyWhenStopped (packets of stop-the-world stages run only between stop_all_mutators and resume_mutators), WorldStoppedOnlyInGC, BlockedUntilEnd, AllClosedAtGCEnd; the mutant that opens the first STW stage before the mutators stopped must be rejected. Conformance: in every real pause of every plan: one StopEnter/StopExit before any root scan, STW packet or object scan; every bound mutator scanned exactly once per root-scan phase (mark-compact plans: a second phase in SecondRoots; ConcurrentImmix: none in FinalMark); exactly one resume_mutators, issued by the last parked worker with all STW buckets empty, no pending packet and no STW packet until the next stop; a blocked requester is released only after a resume that follows its block, and the request flag is clear when the mutators are resumed (a request made right after the pause is not elided); in whole-system runs a forced user request that overlaps a pending allocation-triggered request returns only after a collection has ended.',
     "note": 'Trusted: TLC; the add-only event hooks (emitted under WorkerMonitor::sync for lock-protected state, before enabling / after disabling lock-free operations); the ShadowVM binding. Schedules of real runs are those the OS produced (1..8 workers, loaded machine); all interleavings are covered only for the bounded models (N <= 3 workers). Sequential consistency is assumed; packet identity in traces is (type, stage) multisets.',
     "technique": "TLA+ spec (Scheduler.tla) model-checked with TLC incl. mutants; traces of the real "
                  "scheduler (hooks at every critical section / atomic step) validated with TLC against "
@@ -22,6 +22,12 @@ PREFIXES = ('C11:', 'C14:request-flag-not-cleared-during-gc')
 def run(ctx):
     sc.design_mc(ctx, "C11", ["MC_Scheduler_small.cfg"], ["MC_Scheduler_conc.cfg"])
     st = sc.execute(ctx, sc.matrix(ctx.tier, "gc"), PREFIXES)
+    # whole-system side: user requests that overlap a pending (allocation-triggered) request
+    from props import heapcommon as hc
+    wruns = [r for r in hc.cycle_matrix(ctx.tier) if "tryfirst" in r.name]
+    if ctx.tier != "quick":
+        wruns = wruns[:6]
+    ctx.cov["overlapping_requests"] = hc.execute(ctx, wruns, PREFIXES)
     first = st.pop("_first_trace", None)
     if ctx.tier == "thorough" and first and not ctx.violations:
         sc.binding_demo(ctx, first)
